@@ -1670,6 +1670,13 @@ impl<'a> Session<'a> {
             self.violate("C05", inv, d);
             return;
         }
+        // below the caller of `main` only the libc start-up frames exist (__libc_start_main,
+        // _start): a longer tail means the unwinder walked past the outermost frame
+        if got.len() > expected.len() + 3 {
+            let tail: Vec<String> = got[expected.len()..].iter().take(6).map(|a| format!("{a:#x}")).collect();
+            self.violate("C05", "frames_beyond_outermost", format!("at ref index {j}: {} frames reported, the real stack has {} down to the caller of main plus at most 3 start-up frames; tail {tail:?}", got.len(), expected.len()));
+            return;
+        }
         // CFA / return address of the selected (innermost) frame
         match dbg.frame_info() {
             Ok(fi) => {
